@@ -91,14 +91,15 @@ theorem potential_step {t : Topo} {s s' : State} {l : Label} (d : Nat) (h : step
 theorem runCount_bound {t : Topo} (wf : t.WF) (d : Nat) :
     ∀ (ls : List Label) (s sf : State) (c g : Nat), Inv t s → (∀ l ∈ ls, l.isOutReset = false) →
       runCount t d s ls = some (sf, c, g) →
-      potential t sf d + c ≤ potential t s d + g ∧ Inv t sf := by
+      potential t sf d + c ≤ potential t s d + g ∧ Inv t sf ∧
+        (∀ i, s.gone i = true → sf.gone i = true) := by
   intro ls
   induction ls with
   | nil =>
     intro s sf c g hi _ h
     simp only [runCount, Option.some.injEq, Prod.mk.injEq] at h
     obtain ⟨rfl, rfl, rfl⟩ := h
-    exact ⟨by omega, hi⟩
+    exact ⟨by omega, hi, fun _ x => x⟩
   | cons l ls ih =>
     intro s sf c g hi hno h
     simp only [runCount] at h
@@ -117,8 +118,8 @@ theorem runCount_bound {t : Topo} (wf : t.WF) (d : Nat) :
         have hw : ∀ n c, l ≠ .wake n c := by
           intro n c hc; subst hc; exact no_wake hi hs
         have h1 := potential_step d hs hw
-        obtain ⟨h2, hi2⟩ := ih s1 sf' c' g' hi1 (fun l' hl' => hno l' (List.mem_cons_of_mem _ hl')) hr
-        exact ⟨by omega, hi2⟩
+        obtain ⟨h2, hi2, hg2⟩ := ih s1 sf' c' g' hi1 (fun l' hl' => hno l' (List.mem_cons_of_mem _ hl')) hr
+        exact ⟨by omega, hi2, fun i x => hg2 i ((step_wle hs hw).gone i x)⟩
 
 theorem run_inv {t : Topo} (wf : t.WF) :
     ∀ (ls : List Label) (s sf : State), Inv t s → (∀ l ∈ ls, l.isOutReset = false) →
@@ -389,6 +390,48 @@ theorem no_result_after {t : Topo} {s s' : State} {l : Label} (hr : s.running 0 
       · subst hc; exact ⟨s.toClient c, by simp⟩
       · exact ⟨[], by simp [hc]⟩
 
+/-- `running` never comes back (any transition) -/
+theorem running_mono {t : Topo} {s s' : State} {l : Label} (h : step t s l = some s') (i : Nat)
+    (hr : s'.running i = true) : s.running i = true := by
+  by_cases hw : ∃ n c, l = .wake n c
+  · obtain ⟨n, c, rfl⟩ := hw
+    simp only [step, wake] at h
+    split at h
+    · cases h
+    split at h
+    · split at h <;> cases h
+      exact hr
+    · split at h <;> cases h
+      exact hr
+  · exact (step_wle h (fun n c x => hw ⟨n, c, x⟩)).running i hr
+
+/-- over a whole run -/
+theorem no_result_after_run {t : Topo} :
+    ∀ (ls : List Label) (s sf : State), s.running 0 = false → run t s ls = some sf →
+      sf.running 0 = false ∧ ∀ c, ∃ pre, s.toClient c = pre ++ sf.toClient c := by
+  intro ls
+  induction ls with
+  | nil =>
+    intro s sf hr h
+    simp only [run, Option.some.injEq] at h; subst h
+    exact ⟨hr, fun c => ⟨[], rfl⟩⟩
+  | cons l ls ih =>
+    intro s sf hr h
+    simp only [run] at h
+    cases hs : step t s l with
+    | none => simp [hs] at h
+    | some s1 =>
+      simp only [hs] at h
+      have hr1 : s1.running 0 = false := by
+        cases hx : s1.running 0 with
+        | false => rfl
+        | true => have := running_mono hs 0 hx; rw [hr] at this; cases this
+      obtain ⟨h1, h2⟩ := ih s1 sf hr1 h
+      refine ⟨h1, fun c => ?_⟩
+      obtain ⟨pre1, e1⟩ := no_result_after hr hs c
+      obtain ⟨pre2, e2⟩ := h2 c
+      exact ⟨pre1 ++ pre2, by rw [e1, e2, List.append_assoc]⟩
+
 /-! ### the client -/
 
 theorem recvAll_eof_not_blocked : ∀ (l : List Msg) (tr : Option Msg), recvAll l tr true ≠ .blocked := by
@@ -473,5 +516,21 @@ theorem crash_frame {t : Topo} {s s' : State} {n : Nat} {tr : Bool} (h : crash t
   split at h <;> cases h <;>
   · refine ⟨rfl, rfl, rfl, rfl, rfl, rfl, rfl, rfl, rfl, rfl, fun i x => ?_⟩
     simp only [upd_apply] at x; split at x <;> simp_all
+
+theorem getD_of_isSome {α : Type} (o : Option α) (d : α) (h : o.isSome = true) : o = some (o.getD d) := by
+  cases o <;> simp_all
+
+theorem run_append {t : Topo} : ∀ (l1 l2 : List Label) (a b : State), run t a l1 = some b →
+    run t a (l1 ++ l2) = run t b l2 := by
+  intro l1
+  induction l1 with
+  | nil => intro l2 a b h; simp only [run, Option.some.injEq] at h; subst h; rfl
+  | cons x xs ih =>
+    intro l2 a b h
+    simp only [run, List.cons_append] at h ⊢
+    cases hx : step t a x with
+    | none => simp [hx] at h
+    | some a1 => simp only [hx] at h ⊢; exact ih l2 a1 b h
+
 
 end BqVerif.Crash
